@@ -378,11 +378,14 @@ pub fn test_live(c: &LiveCase, ctx: &mut CaseCtx) -> Result<(), String> {
             }
             CfgOp::FillCurated => {
                 group.config.fill_with_curated();
+                // the curated configuration, overridden by every explicit (non-null) choice; a
+                // null entry is "not mentioned" and does not survive
+                let explicit: Vec<(String, Option<bool>)> = model.iter().filter(|(_, v)| v.is_some()).map(|(k, v)| (k.clone(), *v)).collect();
+                model.clear();
                 for k in keys {
-                    if model.get(k).copied().flatten().is_none() {
-                        model.insert(k.clone(), Some(curated.is_rule_enabled(k)));
-                    }
+                    model.insert(k.clone(), Some(curated.is_rule_enabled(k)));
                 }
+                model.extend(explicit);
             }
             CfgOp::SetAll(v) => {
                 group.set_all_rules_to(*v);
